@@ -222,12 +222,36 @@ fn decomp_case(ctx: &mut Ctx, rng: &mut Rng) {
         blocks.clear();
         for _ in 0..rng.urange(1, 3) { blocks.push((rng.urange(2, 6), rng.urange(20, 130))) }
     }
+    // "skew" family: blocks with one long column (17..60 entries) and several short ones (2..3 entries) that
+    // meet it in a single row each — column pairs of very different lengths
+    let skew = !comb && rng.chance(1, 5);
+    if skew {
+        blocks.clear();
+        for _ in 0..rng.urange(1, 3) { blocks.push((rng.urange(20, 70), rng.urange(3, 8))) }
+    }
     let (er, ec) = (rng.urange(0, 3), rng.urange(0, 3));
     let m: usize = blocks.iter().map(|b| b.0).sum::<usize>() + er;
     let n: usize = blocks.iter().map(|b| b.1).sum::<usize>() + ec;
     let mut e: Vec<(usize, usize, i64)> = vec![];
     let (mut r0, mut c0) = (0, 0);
     for &(bm, bn) in &blocks {
+        if skew {
+            // column 0 is long; every other column has 2..3 entries, exactly one of them in a row of column 0
+            let mut rows: Vec<usize> = (0..bm).collect();
+            rng.shuffle(&mut rows);
+            let nlong = rng.urange(17, bm.min(60)).min(bm - 2);
+            let (long_rows, other_rows) = rows.split_at(nlong);
+            for &i in long_rows { e.push((r0 + i, c0, rng.range(1, 3))) }
+            let mut used_other = vec![];
+            for j in 1..bn {
+                e.push((r0 + *rng.choose(long_rows), c0 + j, rng.range(1, 3)));
+                for _ in 0..rng.urange(1, 2) { let i = *rng.choose(other_rows); used_other.push(i); e.push((r0 + i, c0 + j, rng.range(-3, -1))) }
+            }
+            // rows not yet used: hang them on the long column so that the block is one component
+            for &i in other_rows { if !used_other.contains(&i) { e.push((r0 + i, c0, 2)) } }
+            r0 += bm; c0 += bn;
+            continue
+        }
         // connected block: a random spanning structure plus extras
         for i in 0..bm { e.push((r0 + i, c0 + rng.below(bn), rng.range(1, 3))) }
         for j in 0..bn { e.push((r0 + rng.below(bm), c0 + j, rng.range(-3, -1))) }
@@ -245,7 +269,7 @@ fn decomp_case(ctx: &mut Ctx, rng: &mut Rng) {
     let Some(a) = o_to_sp_with_stored_zeros::<i64>(&ao, &zeros) else { return };
     let nthreads = *rng.choose(&[1usize, 2, 4, 16]);
     let policy = if rng.chance(1, 2) { Policy::SleepColStart } else { Policy::None };
-    let cfg = json!({"op": "dir_sum_decomp", "comb_family": comb, "shape": [m, n], "planted_blocks": blocks, "empty_rows": er, "empty_cols": ec, "stored_zeros": with_zeros, "threads": nthreads, "policy": format!("{:?}", policy)});
+    let cfg = json!({"op": "dir_sum_decomp", "comb_family": comb, "skew_family": skew, "shape": [m, n], "planted_blocks": blocks, "empty_rows": er, "empty_cols": ec, "stored_zeros": with_zeros, "threads": nthreads, "policy": format!("{:?}", policy)});
     let wit = |extra: serde_json::Value| json!({"config": cfg, "A": if m * n <= 400 { ao.show() } else { format!("{}x{} (omitted; regenerate from the case seed)", m, n) }, "detail": extra});
     trace::set_policy(policy, rng.next_u64(), 2);
     let pool = &pools()[&nthreads];
